@@ -203,6 +203,14 @@ int scen_convert(cmd_t * c) {
 		ev_begin("eng"); ev_str("op", "new"); ev_int("eid", i); ev_str("src", a[1].s); ev_end();
 		return 1;
 	}
+	if (!strcmp(n, "e_lang")) {
+		/* the language of a live engine is changed between conversions */
+		int i = (int)arg_long(&a[0]) % MAXENG; if (!eng[i].used) return 0;
+		eng[i].lang = (short)arg_long(&a[1]);
+		mmd_engine_set_language(eng[i].e, eng[i].lang);
+		ev_begin("eng"); ev_str("op", "lang"); ev_int("eid", i); ev_int("lang", eng[i].lang); ev_end();
+		return 1;
+	}
 	if (!strcmp(n, "e_settext")) {
 		int i = (int)arg_long(&a[0]) % MAXENG; srcbuf * sb = src_get(a[1].s); if (!sb || !eng[i].used) return 0;
 		d_string_erase(eng[i].d, 0, (size_t)-1);
